@@ -42,7 +42,7 @@ OUT_FILE = os.path.join(C.COQ, "gen", "GenCode.v")
 TARGETS = [
     ("utils/__init__.py", ["find_end_subtree_from_i", "find_id_args_from_i", "get_levels_tree_from_i", "binary_search_interval",
                            "check_for_value", "argsort_k", "find_pbest_id"]),
-    ("utils/random.py", ["sattolo_shuffle", "random_weighted_sample", "random_sample", "flip_coin", "uniform", "randint"]),
+    ("utils/random.py", ["sattolo_shuffle", "sattolo_shuffle_2d", "random_weighted_sample", "random_sample", "flip_coin", "uniform", "randint"]),
     ("utils/selections.py", ["proportional_selection", "rank_selection", "tournament_selection"]),
     ("utils/crossovers.py", ["empty_crossover", "binomialGA", "one_point_crossover", "two_point_crossover",
                              "uniform_crossover", "uniform_proportional_crossover", "uniform_rank_crossover", "uniform_tournament_crossover", "binomial"]),
@@ -69,6 +69,7 @@ METHOD_TARGETS = [
     ("optimizers/_shade.py", "SHADE", "_update_u_F", "SHADE_update_u_F", "float64(float64, float64[:])", {}),
     ("optimizers/_shade.py", "SHADE", "_update_u_CR", "SHADE_update_u_CR", "float64(float64, float64[:], float64[:])", {}),
     ("optimizers/_shade.py", "SHADE", "_generate_F_CR", "SHADE_generate_F_CR", "(float64[:], float64[:])()", {}),
+    ("optimizers/_shade.py", "SHADE", "_append_archive", "SHADE_append_archive", "float64[:, :](float64[:, :], float64[:, :])", {}),
     ("optimizers/_shaga.py", "SHAGA", "_update_u", "SHAGA_update_u", "float64(float64, float64[:], float64[:])", {}),
     ("optimizers/_shaga.py", "SHAGA", "_randc", "SHAGA_randc", "float64(float64, float64)", {}),
     ("optimizers/_shaga.py", "SHAGA", "_randn", "SHAGA_randn", "float64(float64, float64)", {}),
@@ -93,6 +94,7 @@ MANUAL_SIGS = {
     "empty_crossover": "int8[:](int8[:, :], float64[:], float64[:])",
     "minmax_scale": "float64[:](float64[:])",
     "uniform_tournament_crossover": "int8[:](int8[:, :], float64[:], float64[:])",
+    "sattolo_shuffle_2d": "float64[:, :](float64[:, :])",
 }
 # extra fuel for while loops that consume no draws (a wrong value cannot make a theorem true: out of fuel is None and
 # the equivalence theorems show the result is Some)
@@ -650,6 +652,11 @@ class Translator:
             if t == L(Q):
                 return f"(meanQ {c})", Q
             raise Untranslatable(e, "mean of " + str(t))
+        if name == "np.append" and len(e.args) == 2 and [(k.arg, ast.unparse(k.value)) for k in e.keywords] == [("axis", "0")]:
+            (a, ta), (b, tb) = self._expr(fn, sc, e.args[0], pre), self._expr(fn, sc, e.args[1], pre)
+            if ta == tb and is_list(ta) and is_list(ta[1]):
+                return f"({a} ++ {b})", ta
+            raise Untranslatable(e, f"np.append(axis=0) of {ta}, {tb}")
         if name == "np.power" and len(e.args) == 2 and isinstance(e.args[1], ast.Constant) and type(e.args[1].value) is int and e.args[1].value >= 0:
             c, t = self._expr(fn, sc, e.args[0], pre)
             if t == L(Q):
@@ -720,6 +727,8 @@ class Translator:
             if n in ("np.empty", "np.zeros", "np.empty_like", "np.arange", "np.cumsum", "sorted", "np.unique", "np.ones_like"):
                 return True
             if isinstance(e.func, ast.Attribute) and e.func.attr == "clip":
+                return True
+            if n == "np.append":
                 return True
             if isinstance(e.func, ast.Name) and e.func.id in self.funcs:
                 return self.funcs[e.func.id]["returns_fresh"]
@@ -901,13 +910,21 @@ class Translator:
                     ast.fix_missing_locations(a)
                     body_stmts.append(a)
                 # temporaries hold scalars here (element swap); aliasing of arrays through them is rejected
-                for tmp, (_, c) in zip(tmps, code_lets):
-                    if is_list(sc.env[tmp]):
-                        raise Untranslatable(s, "tuple assignment of arrays")
+                for tmp, (_, c), v in zip(tmps, code_lets, value.elts):
+                    if is_list(sc.env[tmp]) and not (isinstance(v, ast.Call) and isinstance(v.func, ast.Attribute) and v.func.attr == "copy" and not v.args):
+                        raise Untranslatable(s, "tuple assignment of arrays (other than fresh .copy() values)")
                 body = self.block(fn, sc, body_stmts + rest, fin, loop)
                 for tmp, c in reversed(code_lets):
                     body = self.let(tmp, c, body)
                 return self.wrap_pre(pre, body)
+            if isinstance(value, ast.Attribute) and value.attr == "shape" and len(target.elts) == 2 and all(isinstance(x, ast.Name) for x in target.elts):
+                c, t = self._expr(fn, sc, value.value, pre)
+                if is_list(t) and is_list(t[1]):
+                    self.bind_name(sc, target.elts[0].id, Z, s, False)
+                    self.bind_name(sc, target.elts[1].id, Z, s, False)
+                    body = self.block(fn, sc, rest, fin, loop)
+                    return self.wrap_pre(pre, self.let(target.elts[0].id, f"(zlen {c})", self.let(target.elts[1].id, f"(zlen (getR {c} 0))", body)))
+                raise Untranslatable(s, "shape of a non-2-D value")
             c, t = self._expr(fn, sc, value, pre)
             if not (is_list(t) and not is_list(t[1])):
                 raise Untranslatable(s, "unpacking of a non-1-D value")
